@@ -8,6 +8,10 @@ const DEFAULT_BUFFER_LEN: usize = if cfg!(test) { 13 } else { 1024 };
 pub(crate) struct TextDecoder {
     encoding: AsciiCompatibleEncoding,
     pending_source_location_bytes_start: usize,
+    /// Number of input bytes the streaming decoder has consumed (e.g. the first bytes of
+    /// a multi-byte character split between chunks) that haven't been included in the
+    /// source location of any text chunk yet. They immediately precede the next input.
+    unreported_bytes_len: usize,
     pending_text_streaming_decoder: Option<Decoder>,
     text_buffer: String,
 }
@@ -21,6 +25,7 @@ impl TextDecoder {
     pub fn new(encoding: AsciiCompatibleEncoding) -> Self {
         Self {
             pending_source_location_bytes_start: 0,
+            unreported_bytes_len: 0,
             encoding,
             pending_text_streaming_decoder: None,
             // this will be later initialized to DEFAULT_BUFFER_LEN,
@@ -92,11 +97,17 @@ impl TextDecoder {
                 decoder.decode_to_str(raw_input, buffer, last_in_text_node);
 
             let finished_decoding = status == CoderResult::InputEmpty;
-            let source_location =
-                SourceLocation::from_start_len(next_source_location_bytes_start, read);
+            // bytes consumed earlier without producing any text belong to this chunk
+            let unreported = self.unreported_bytes_len;
+            let source_location = SourceLocation::from_start_len(
+                next_source_location_bytes_start.saturating_sub(unreported),
+                read + unreported,
+            );
             next_source_location_bytes_start = source_location.bytes().end;
 
             if written > 0 || last_in_text_node {
+                self.unreported_bytes_len = 0;
+
                 // the last call to feed_text() may make multiple calls to output_handler,
                 // but only one call to output_handler can be *the* last one.
                 let really_last = last_in_text_node && finished_decoding;
@@ -108,6 +119,8 @@ impl TextDecoder {
                     encoding,
                     source_location,
                 )?;
+            } else {
+                self.unreported_bytes_len = read + unreported;
             }
 
             if finished_decoding {
